@@ -92,13 +92,31 @@ type vfC10BreakerSpec struct {
 	Window    int
 	Minimum   int
 	Threshold int
+	// WaitOpenMs: waitDurationInOpenState in ms (0 = one hour, i.e. OPEN for the rest of the case)
+	WaitOpenMs int
+	// Permitted: permittedNumberOfCallsInHalfOpenState (0 = 1)
+	Permitted int
+}
+
+func (b *vfC10BreakerSpec) waitOpen() time.Duration {
+	if b.WaitOpenMs <= 0 {
+		return time.Hour
+	}
+	return time.Duration(b.WaitOpenMs) * time.Millisecond
+}
+
+func (b *vfC10BreakerSpec) permitted() int {
+	if b.Permitted <= 0 {
+		return 1
+	}
+	return b.Permitted
 }
 
 func (b *vfC10BreakerSpec) String() string {
 	if b == nil {
 		return "breaker{none}"
 	}
-	return fmt.Sprintf("breaker{COUNT_BASED window=%d minimum=%d failureRateThreshold=%d waitOpen=1h}", b.Window, b.Minimum, b.Threshold)
+	return fmt.Sprintf("breaker{COUNT_BASED window=%d minimum=%d failureRateThreshold=%d waitOpen=%v permittedHalfOpen=%d}", b.Window, b.Minimum, b.Threshold, b.waitOpen(), b.permitted())
 }
 
 type vfC10PoolSpec struct {
@@ -356,8 +374,8 @@ func vfC10NewEnv(rt *rapid.T, ps vfC10PoolSpec) *vfC10Env {
 			"kind": "CircuitBreaker", "name": "cb", "slidingWindowType": "COUNT_BASED",
 			"failureRateThreshold": ps.Breaker.Threshold, "slidingWindowSize": ps.Breaker.Window,
 			"minimumNumberOfCalls": ps.Breaker.Minimum, "slowCallRateThreshold": 100,
-			"slowCallDurationThreshold": "1h", "waitDurationInOpenState": "1h",
-			"permittedNumberOfCallsInHalfOpenState": 1,
+			"slowCallDurationThreshold": "1h", "waitDurationInOpenState": ps.Breaker.waitOpen().String(),
+			"permittedNumberOfCallsInHalfOpenState": ps.Breaker.permitted(),
 		}
 		cp, err := resilience.NewPolicy(rawCB)
 		if err != nil {
